@@ -65,7 +65,18 @@ class Ctx:
         return f
 
     def rid(self, r):
-        return f"{self.prop}.{r}"
+        forced = getattr(self, "_forced_rule", None)
+        return f"{self.prop}.{forced or r}"
+
+    def borrow(self, fn, as_rule, *args, **kw):
+        """run a rule function of another property here: the clause it decides is also a necessary condition of this property.
+        Every instance it records is filed under this property's rule `as_rule`."""
+        prev = getattr(self, "_forced_rule", None)
+        self._forced_rule = as_rule
+        try:
+            return fn(self, *args, **kw)
+        finally:
+            self._forced_rule = prev
 
     def ok(self, rule, site, detail="", **facts):
         self.insts.append(Inst(self.rid(rule), site, "holds", detail, facts))
